@@ -305,6 +305,13 @@ def structural_inventories(repo):
     return out
 
 
+def _standin(repo, seed, tier):
+    from pyvc.standin import run_standin
+    return run_standin('C12', tier, seed, repo)
+
+
+_standin.tiers = ('quick', 'thorough')
+BOUNDED = [_standin]
 STRUCTURAL = [structural_inventories]
 NOT_DECIDED = ['what the target interpreter does at start-up (site, .pth in its own site-packages)',
                'third-party meta-path finders executing code in find_spec',
